@@ -8,11 +8,13 @@
    squares, reserves in [0,49], capstones in [0,1] (what Token.RESERVES /
    Token.CAPSTONES can index, without Python's negative wrap-around) and only
    the top piece of a stack Standing / Capstone.  The other clauses need no
-   domain guard.  Not proved here: every position reachable in a game of size
-   3..6 is `encodable` (that is C04's invariant; see notes/C06.md). *)
+   domain guard.  Every position reachable in a game of size 3..6 (standard
+   piece sets, or any custom set with <= 49 stones and <= 1 capstone) is
+   `encodable`: C06_reachable_encodable, from C04's invariant. *)
 From Coq Require Import ZArith List Bool.
 From TV Require gen.Consts.
-From TV Require Import model.Tak model.Encoding spec.EncodingSpec proofs.TieEncoding proofs.EncodingProofs.
+From TV Require Import model.Tak model.Run model.Encoding spec.EncodingSpec proofs.TieEncoding proofs.EncodingProofs
+  proofs.EncodingReach.
 Import ListNotations.
 Open Scope Z_scope.
 
@@ -20,6 +22,16 @@ Open Scope Z_scope.
 Theorem C06_decode_encode : forall s p, encodable p ->
   exists l, encode s p = Some l /\ decode l = Some (board p, to_move p, reserves p).
 Proof. exact decode_encode. Qed.
+
+(* "all positions of sizes 3-6, reachable ...": positions reached by accepted moves from the
+   initial position are in the domain (custom piece sets the vocabulary can index; standard sets) *)
+Theorem C06_reachable_encodable : forall cfg ms p,
+  3 <= csize cfg <= 6 -> 0 <= flat_count cfg <= 49 -> 0 <= capstone_count cfg <= 1 ->
+  run (from_config cfg) ms = Some p -> encodable p.
+Proof. exact reachable_encodable. Qed.
+Theorem C06_reachable_encodable_standard : forall n ms p,
+  3 <= n <= 6 -> run (from_config (mkCfg n None None)) ms = Some p -> encodable p.
+Proof. exact reachable_encodable_standard. Qed.
 
 (* "distinct (board, side to move, reserves) triples encode to distinct token sequences" *)
 Theorem C06_encode_distinct : forall s p q, encodable p -> encodable q ->
